@@ -181,6 +181,41 @@ fn check_ref_id(c: &IdCase, obs: &mut Obs) -> Check {
             let mut again = cached.clone();
             again.precompute(&chain).map_err(|e| Failure::new(format!("cache:{kind}:second-precompute-error"), format!("{e:?}")))?;
             ensure_eq!(again.cached_id().map(|b| *b), Some(want), format!("cache:{kind}:cached-id-second"), "cached_id() after second precompute");
+            // a later precompute refreshes the cache: other chain id ...
+            let chain2 = ChainId::new(c.chain ^ 1);
+            let mut rechain = cached.clone();
+            if rechain.precompute(&chain2).is_ok() {
+                obs.class("re-precompute-other-chain");
+                ensure_eq!(rechain.cached_id().map(|b| *b), Some(reference_id(&c.tx, c.chain ^ 1)), format!("cache:{kind}:stale-after-precompute-with-other-chain"), "cached_id() after precompute(chain) then precompute(chain^1)");
+            }
+            // ... and changed non-malleable content (a coin output appended / the mint amount bumped)
+            let mut spec2 = c.tx.clone();
+            let mut changed = cached.clone();
+            match (&mut spec2, &mut changed) {
+                (AnyTx::Mint(m), Transaction::Mint(t)) => {
+                    m.amount = m.amount.wrapping_add(1);
+                    *fuel_tx::field::MintAmount::mint_amount_mut(t) = m.amount;
+                }
+                (AnyTx::Charge(ts), t) => {
+                    let o = crate::gens::tx::OutSpec::Coin { to: crate::gens::tx::B32([7; 32]), amount: 3, asset: crate::gens::tx::B32([9; 32]) };
+                    let built = o.build();
+                    ts.outputs.push(o);
+                    match t {
+                        Transaction::Script(x) => fuel_tx::field::Outputs::outputs_mut(x).push(built),
+                        Transaction::Create(x) => fuel_tx::field::Outputs::outputs_mut(x).push(built),
+                        Transaction::Upgrade(x) => fuel_tx::field::Outputs::outputs_mut(x).push(built),
+                        Transaction::Upload(x) => fuel_tx::field::Outputs::outputs_mut(x).push(built),
+                        Transaction::Blob(x) => fuel_tx::field::Outputs::outputs_mut(x).push(built),
+                        Transaction::Mint(_) => {}
+                    }
+                }
+                _ => {}
+            }
+            if changed.precompute(&chain).is_ok() {
+                obs.class("re-precompute-after-change");
+                ensure_eq!(changed.cached_id().map(|b| *b), Some(reference_id(&spec2, c.chain)), format!("cache:{kind}:stale-after-change-and-precompute"), "cached_id() after precompute, content change, precompute");
+                ensure!(changed == spec2.build(), format!("cache:{kind}:changed-tx-differs"), "harness: mutated tx differs from rebuilt spec");
+            }
             // the cache is not part of equality / encoding
             ensure!(cached == tx, format!("cache:{kind}:eq"), "precomputed tx != original");
             ensure!(cached.to_bytes() == tx.to_bytes(), format!("cache:{kind}:bytes"), "precompute changed the encoding");
